@@ -344,18 +344,23 @@ def coordAfter (sep : Bytes) (m : Msg) (isLast : Bool) : List Chunk :=
 
 /-! ### file-name field (`processing_loop`, first print) -/
 
-/-- `format!("{0:<1$}{2}", name, width, sep)`: pad with spaces to `width` *chars* (`nchars` is
-`name.chars().count()`), then the prepend separator -/
-def fileField (name : Bytes) (nchars width : Nat) (psep : Bytes) : Bytes :=
-  name ++ List.replicate (width - nchars) SP ++ psep
+/-- the file-name field: the name, `width - measure` spaces, then the prepend separator; `measure` is the
+name's display width (`ALIGN_PADS_BY_COLUMNS`; before the repair bd…F9 it was `name.chars().count()`
+through `format!("{0:<1$}{2}", name, width, sep)`) -/
+def fileField (name : Bytes) (measure width : Nat) (psep : Bytes) : Bytes :=
+  name ++ List.replicate (width - measure) SP ++ psep
 
 /-- a name as the display widths (unicode-width) of its chars -/
 abbrev Name := List Nat
 def Name.cols (n : Name) : Nat := n.sum
 /-- `prependname_width`: max of `UnicodeWidthStr::width` over the files with a message (0 without `-w`) -/
 def alignWidth (names : List Name) : Nat := names.foldl (fun w n => max w n.cols) 0
-/-- `{:<width}` padding (spaces are one column wide) -/
-def padName (n : Name) (width : Nat) : Name := n ++ List.replicate (width - n.length) 1
+/-- what the padding subtracts from the common width: display columns or `char` count -/
+def padMeasure (byCols : Bool) (n : Name) : Nat := if byCols then n.cols else n.length
+/-- padding with spaces (one column each) -/
+def padNameWith (byCols : Bool) (n : Name) (width : Nat) : Name := n ++ List.replicate (width - padMeasure byCols n) 1
+/-- the code as extracted -/
+def padName (n : Name) (width : Nat) : Name := padNameWith S4V.Gen.Print.ALIGN_PADS_BY_COLUMNS n width
 
 /-! ### `--summary` accounting (`SummaryPrinted`) -/
 
